@@ -68,6 +68,8 @@ type Runner struct {
 	codepos         int
 	rightToLeft     bool
 	caseInsensitive bool
+
+	verif verifRunnerState // empty unless built with the verif tag
 }
 
 // run searches for matches and can continue from the previous match.
@@ -114,6 +116,7 @@ func (re *Regexp) run(quick bool, textstart, previousMatchLength int, input []ru
 // we collapsed down to just textInfo it would "escape" and hit the GC for fast
 // scans without captures.
 func (r *Runner) scan(rt []rune, textInfo *matchText, textstart, previousMatchLength int, quick bool, timeout time.Duration) (*Match, error) {
+	verifScanStart(r)
 	r.timeout = timeout
 	r.ignoreTimeout = (time.Duration(math.MaxInt64) == timeout)
 	r.debug = r.re.Debug()
@@ -167,6 +170,7 @@ func (r *Runner) scan(rt []rune, textInfo *matchText, textstart, previousMatchLe
 
 	r.startTimeoutWatch()
 	for {
+		verifStep(r)
 		if minRequiredLength > 0 {
 			if r.code.RightToLeft {
 				if r.Runtextpos < minRequiredLength {
@@ -234,6 +238,7 @@ func executeDefault(r *Runner) error {
 	}
 
 	for {
+		verifStep(r)
 
 		if r.debug {
 			r.dumpState()
